@@ -176,13 +176,20 @@ def r2_r4(model, rep):
     atoms = [eS, eL, PCa, INa]
     ok4, ok2 = True, True
     got_all = None
-    for bits in itertools.product((False, True), repeat=4):
+    extra = set()
+    for lf in leaves:
+        for g in lf.guards:
+            atoms_of(g, extra)
+    atoms = atoms + sorted(extra - set(atoms), key=repr)
+    if len(atoms) > 10:
+        raise AnalysisError("_solv_get_warns: too many guard atoms")
+    for bits in itertools.product((False, True), repeat=len(atoms)):
         al = dict(zip(atoms, bits))
         if al[eS] and al[eL]:
             continue
         hit = [lf for lf in leaves if ev(lf.cond(), al) is True]
         if len(hit) != 1:
-            raise AnalysisError("_solv_get_warns: guard rows are not decided by (type, has table, phase listed)")
+            raise AnalysisError("_solv_get_warns: guard rows are not a partition")
         lf = hit[0]
         silent_wanted = (not al[eS]) and (not al[eL]) and al[PCa] and not al[INa]
         is_silent = lf.kind == "return" and lf.value == ""
@@ -192,7 +199,7 @@ def r2_r4(model, rep):
                           "warnings are %s for a %s%s whose phase table %s the phase" % (
                               "suppressed" if is_silent else "evaluated", "source" if al[eS] else ("series loss" if al[eL] else "component"),
                               "" if al[PCa] else " without phase table", "lists" if al[INa] else "does not list"),
-                          "silence S=%s L=%s PC=%s IN=%s" % bits)
+                          "silence S=%s L=%s PC=%s IN=%s" % tuple(bits[:4]))
         if not is_silent:
             # R2: the compared quantities
             if lf.kind != "return" or not (isinstance(lf.value, Sym) and lf.value.key[0] == "call" and lf.value.key[1] == "_get_warns"):
